@@ -1,5 +1,5 @@
 from ..framework import Spec
-from ..ties_sys import isa_tie
+from ..ties_sys import isa_tie, macro_scenario_tie
 
 SPEC = Spec(pid='C10', coq_needs=['Base', 'Match', 'MatchProofs', 'ProgramIsa', 'Properties/C10'],
-            ties=[isa_tie({'p_macros': 1.0}, n_quick=350, name='isa_macros')])
+            ties=[isa_tie({'p_macros': 1.0}, n_quick=350, name='isa_macros'), macro_scenario_tie()])
